@@ -113,6 +113,8 @@ def mon_c04(f):
                     out.append("cancelled call %d returned a non-zero value %d" % (i, v))
             elif not delivered and not f.ended:
                 out.append("cancelled call %d returned %r instead of the context's error" % (i, e))
+            elif e == "" and f.calls[i].get("nres", 1) == 2 and not any(de == 0 and dv == v for dk, dv, de in f.deliveries.get(i, [])):
+                out.append("cancelled call %d returned (%s, nil): a nil error with a value that is not the value of a response delivered for it %s - neither its result nor the context's error" % (i, v, [(dv, de) for dk, dv, de in f.deliveries.get(i, [])]))
     if not f.ending_actions:
         if f.first_report is not None:
             out.append("the link ended (%r) although only per-call contexts were cancelled and no fault was injected" % (f.first_report[1],))
